@@ -12,11 +12,16 @@ CLAIMED = {
              "neg, not, trunc/sext/zext) computes the documented result on values (`arith_sound`, `sdiv_sound`, `udiv_sound`, "
              "`cmp_sound`, ...). A source-level Lean interpreter (wrapping integers, forward gotos, block loops, auto-deref "
              "pointers, views, lengths, calls, constants) is compared with lli on the IR of type-directed random programs "
-             "under random layouts (stdout and exit status). Partial: the lowering of control flow and address computation "
-             "is not a theorem; structs/words are not yet in the generated class.",
+             "under random layouts (stdout and exit status). Control flow: `CF.control_flow_lowering_correct` - for every body "
+             "of blocks, if/else, forward gotos, labels and looped blocks over opaque actions and oracle-driven conditions, if the "
+             "source semantics (the control part of the interpreter) runs it to its end, the flow graph it is lowered to "
+             "produces the same trace (any nesting, any number of jumps and iterations); tied at both ends on every run: the "
+             "trace real skeleton programs print = the source semantics, and the real IR's basic blocks are bisimilar to the "
+             "lowered graph. Structure/word literals are checked against a Python oracle. Partial: evaluation order of "
+             "expressions and address computation are not theorems.",
         note="Trusted: Lean kernel, the interpreter as the formalisation of the documented semantics (its operator layer is what "
              "the theorems speak about), the program generator's two renderings (source / S-expression), lli 14 as executor.",
-        technique="Lean 4 proof (BitVec operator soundness, all widths) + interpreter-vs-lli correspondence on generated programs",
+        technique="Lean 4 proof (BitVec operator soundness at all widths; control-flow lowering correctness by simulation) + interpreter-vs-lli correspondence and IR-vs-model bisimulation on generated programs",
         design="§4 C01"),
     "C02": dict(
         text="Lean model of how failures travel through the tree (Error / Poisoned leaves, combining and short-circuiting "
